@@ -38,16 +38,48 @@ class LazyOperator:
         "gt": ">",
     }
 
+    # Python's precedence. It tells when an operand needs parentheses in the name of the call.
+    PRECEDENCE = {
+        "eq": 1,
+        "ne": 1,
+        "le": 1,
+        "lt": 1,
+        "ge": 1,
+        "gt": 1,
+        "add": 2,
+        "sub": 2,
+        "mul": 3,
+        "truediv": 3,
+        "pos": 4,
+        "neg": 4,
+        "pow": 5,
+    }
+
     def __init__(self, op, *args):
         self.op = op
         self.args = args
         self.symbol = self.SYMBOLS[op.__name__]
+        self.precedence = self.PRECEDENCE[op.__name__]
 
     def __str__(self):
+        # Without the parentheses 'x - (w - 1)' and 'x - w - 1' would have the same name
+        def wrap(arg, needs_parentheses):
+            if isinstance(arg, LazyOperator) and needs_parentheses(arg.precedence):
+                return f"({arg})"
+            return str(arg)
+
         if len(self.args) == 1:
-            return f"{self.symbol}{self.args[0]}"
+            return f"{self.symbol}{wrap(self.args[0], lambda p: p < self.precedence)}"
+        left, right = self.args
+        if self.symbol == "**":
+            # Right-associative. A sign needs parentheses on the left, '(-x) ** 2', but not on the
+            # right, 'x ** -2'.
+            left = wrap(left, lambda p: p <= self.precedence)
+            right = wrap(right, lambda p: p < self.precedence - 1)
         else:
-            return f"{self.args[0]} {self.symbol} {self.args[1]}"
+            left = wrap(left, lambda p: p < self.precedence)
+            right = wrap(right, lambda p: p <= self.precedence)
+        return f"{left} {self.symbol} {right}"
 
     def __hash__(self):
         return hash((self.symbol, *self.args))
